@@ -15,6 +15,7 @@ import sys
 import time
 import traceback
 from concurrent.futures import ProcessPoolExecutor, as_completed
+from concurrent.futures import TimeoutError as FuturesTimeout
 from concurrent.futures.process import BrokenProcessPool
 import multiprocessing
 
@@ -22,6 +23,7 @@ VERIF = os.path.dirname(os.path.dirname(os.path.abspath(__file__)))
 REPO = os.environ.get('REPO_DIR', '/repo')
 NPROC = int(os.environ.get('VERIF_JOBS', str(min(16, os.cpu_count() or 4))))
 _MP = multiprocessing.get_context('fork')
+WATCHDOG_S = {'quick': int(os.environ.get('VERIF_WATCHDOG_S', '1500')), 'thorough': int(os.environ.get('VERIF_WATCHDOG_S', '14400'))}
 # runs against scratch trees (seeded changes) must not overwrite the committed evidence / replays
 OUT = '/tmp/verif_out_%d' % os.getpid() if os.environ.get('VERIF_NO_EVIDENCE') else VERIF
 
@@ -171,10 +173,7 @@ def _worker_shard(args):
     fam_idx, shard, tier, slot, limit = args
     fam = _FAMS[fam_idx]
     global _CUR
-    if fam.crashy and _SHM is not None:
-        _CUR = (_SHM, slot)
-    else:
-        _CUR = None
+    _CUR = (_SHM, slot) if _SHM is not None else None
     if not getattr(fam, '_setup_done', False):
         fam.setup()
         fam._setup_done = True
@@ -189,7 +188,7 @@ def _worker_shard(args):
     if limit:
         it = itertools.islice(it, limit)
     for case in it:
-        if _CUR is not None:
+        if _CUR is not None and (fam.crashy or not (ncases & 63)):
             _publish(case)
         rr = run_case(fam, case)
         o, nontriv, v = rr[:3]
@@ -313,10 +312,36 @@ class Run:
                                             'expected': x['outcomes'], 'observed': y['outcomes'], 'classifier': None})
                 self.selftest['determinism_replayed_cases'] = sum(x['n'] for x in a)
                 futs = {ex.submit(_worker_shard, j): j for j in jobs}
-                for fut in as_completed(futs):
-                    self._absorb(fut.result())
+                try:
+                    for fut in as_completed(futs, timeout=WATCHDOG_S[self.tier]):
+                        self._absorb(fut.result())
+                except FuturesTimeout:
+                    # watchdog: every enumerated space is finite and sized for minutes; a shard that is still running after
+                    # the budget means some call of the library does not terminate (or takes absurdly long) on a case
+                    stuck = [futs[f] for f in futs if not f.done()]
+                    for j in stuck[:8]:
+                        raw = bytes(_SHM[j[3] * 1024:j[3] * 1024 + 1024]).rstrip(b'\0').decode(errors='replace')
+                        self.add_violation({'family': _FAMS[j[0]].name, 'case': {'shard': jsonable(j[1]), 'last_published_case': raw},
+                                            'msg': 'shard did not finish within the %d s watchdog: a library call does not terminate in reasonable time' % WATCHDOG_S[self.tier],
+                                            'expected': 'termination', 'observed': 'still running', 'classifier': None})
+                    for proc in list(getattr(ex, '_processes', {}).values()):
+                        try:
+                            proc.kill()
+                        except Exception:  # noqa
+                            pass
+                    return
                 for i, f in bfs:
-                    self._run_bfs(ex, i, f)
+                    try:
+                        self._run_bfs(ex, i, f)
+                    except FuturesTimeout:
+                        self.add_violation({'family': f.name, 'case': {'depth_reached': self.max_depth}, 'msg': 'BFS level did not finish within the %d s watchdog: a library call does not terminate in reasonable time' % WATCHDOG_S[self.tier],
+                                            'expected': 'termination', 'observed': 'still running', 'classifier': None})
+                        for proc in list(getattr(ex, '_processes', {}).values()):
+                            try:
+                                proc.kill()
+                            except Exception:  # noqa
+                                pass
+                        return
             except BrokenProcessPool:
                 cur = []
                 for s in range(min(slot, 4096)):
@@ -361,7 +386,7 @@ class Run:
                 break
             nchunk = max(1, min(len(frontier), NPROC * 4))
             chunks = [frontier[i::nchunk] for i in range(nchunk)]
-            results = list(ex.map(_worker_bfs, [(idx, c) for c in chunks]))
+            results = list(ex.map(_worker_bfs, [(idx, c) for c in chunks], timeout=WATCHDOG_S[self.tier]))
             if d <= 2:
                 # determinism self-test: the same transitions replayed in another worker give identical keys/outcomes
                 again = list(ex.map(_worker_bfs, [(idx, c) for c in chunks[:4]]))
